@@ -521,6 +521,23 @@ class PosInterp:
             self.block(st.orelse, env)
         elif isinstance(st, ast.For):
             src_ = self.expr(st.iter, env)
+            if type(src_) is list:
+                # a for loop over a list reads it live: elements appended by the body are visited too
+                i_ = 0
+                while i_ < len(src_):
+                    x = src_[i_]
+                    i_ += 1
+                    if i_ > 4096:
+                        raise self.err(st, 'for loop over a list that keeps growing')
+                    self.assign(st.target, x, env)
+                    try:
+                        self.block(st.body, env)
+                    except _Break:
+                        return
+                    except _Continue:
+                        continue
+                self.block(st.orelse, env)
+                return
             it = self.iter_of(src_, st)
             for x in list(it):
                 if isinstance(src_, _It) and src_:
